@@ -5,7 +5,7 @@ EXTENDS AllocContract, TLC, Json
 
 Trace == ndJsonDeserialize("trace.ndjson")
 VARIABLE l
-tvars == <<visible, imp, inpkg, dst, l>>
+tvars == <<visible, imp, req, inpkg, dst, others, nvars, l>>
 
 ToSet(s) == {s[i] : i \in 1..Len(s)}
 Ev == Trace[l]
@@ -15,9 +15,11 @@ IsEvent(e) == l <= Len(Trace) /\ Trace[l].op = e /\ l' = l + 1
 \* second time with the suggest operations erased and logs, next to each reply, the reply the erased
 \* history gave at the same position (field <f>_erased).  The two must be equal.
 Same(f) == (f \o "_erased") \in DOMAIN Ev => Ev[f] = Ev[f \o "_erased"]
-NoEffect == Same("res") /\ Same("quals") /\ Same("visible") /\ Same("found") /\ Same("nil")
+NoEffect == Same("res") /\ Same("quals") /\ Same("visible") /\ Same("found") /\ Same("nil") /\ Same("names") /\ Same("rpath")
+\* the path the returned package reports (Package.Path()); a recorder that does not log it reported the requested one
+RPath == IF "rpath" \in DOMAIN Ev THEN Ev.rpath ELSE Ev.path
 
-TraceInit == visible = {} /\ imp = << >> /\ inpkg = FALSE /\ dst = "" /\ l = 1
+TraceInit == visible = {} /\ imp = << >> /\ req = << >> /\ inpkg = FALSE /\ dst = "" /\ others = {} /\ nvars = 0 /\ l = 1
 
 TraceStep ==
   \/ IsEvent("reset")    /\ CReset(Ev.inpkg, Ev.dst, ToSet(Ev.visible))
@@ -25,11 +27,13 @@ TraceStep ==
   \/ IsEvent("exists")   /\ CNameExists(Ev.name, Ev.res)
   \/ IsEvent("suggest")  /\ CSuggestName(Ev.res)
   \/ IsEvent("alloc")    /\ CAllocateName(Ev.res)
-  \/ IsEvent("import")   /\ CAddImport(Ev.path, Ev.nil, Ev.res)
+  \/ IsEvent("import")   /\ CAddImport(Ev.path, RPath, Ev.nil, Ev.res)
   \/ IsEvent("imports")  /\ CImports(Ev.paths, Ev.quals)
   \/ IsEvent("qual")     /\ CPkgQualifier(Ev.path, Ev.found, Ev.res)
   \/ IsEvent("newscope") /\ CNewScope(ToSet(Ev.visible))
-  \/ IsEvent("scopesees") /\ CScopeSees(ToSet(Ev.visible) \cup ToSet(Ev.mustseen), ToSet(Ev.must))
+  \/ IsEvent("scopesees") /\ CScopeSees(ToSet(Ev.visible) \cup ToSet(Ev.mustseen), Ev.must)
+  \/ IsEvent("addvar")   /\ CAddVar(Ev.path, RPath, Ev.nil, Ev.q, Ev.tstr, IF "tident" \in DOMAIN Ev THEN Ev.tident ELSE TRUE, ToSet(Ev.visible))
+  \/ IsEvent("resolve")  /\ CResolve(Ev.names, ToSet(Ev.visible))
   \* a "panic" event matches no action: the trace is rejected there
 
 TraceNext == (l <= Len(Trace) => NoEffect) /\ TraceStep
